@@ -71,6 +71,7 @@ pub fn run_case(
                                 .filter(|(k, _, _)| in_range(k, lo, lok, hi, hik))
                                 .collect();
                             let got = drain(apply_bounds(f.search(aut), lo, lok, hi, hik).into_stream())?;
+                            crate::ev::obs(crate::ev::hash_kvs(&got));
                             n += 1;
                             let same = got.len() == want.len()
                                 && got.iter().zip(&want).all(|(g, w)| g.0 == w.0 && g.1 == w.1);
